@@ -72,7 +72,7 @@ impl<T: FileReader> RVParser<T> {
             }
             Err(err) => diags.push(DiagnosticItem::from(*err)),
         }
-        diags.sort();
+        DiagnosticItem::sort_for_output(&mut diags, &self.reader);
         diags
     }
 
